@@ -41,9 +41,9 @@ func drawC10(rt *rapid.T) C10Spec {
 	names := kernel.KeyNames(256)
 	s.Key = rapid.SampledFrom(names).Draw(rt, "key")
 	var others []string
-	for _, n := range names {
+	for _, n := range append(append([]string{}, names...), kernel.KeyNames(512)...) {
 		if n != s.Key {
-			others = append(others, n)
+			others = append(others, n) // includes keys with the same key counter (toy512-k has the counter of toy256-k)
 		}
 	}
 	// a different chain under the same key is authentic by the property's own wording: foreign material comes from another key
@@ -149,6 +149,14 @@ func execC10Bubble(r *kernel.Run, s C10Spec) {
 		return ""
 	}
 
+	freshWitnessAt := func(i int) *revocation.Witness {
+		if i < 0 || i >= len(wits) {
+			return nil
+		}
+		src := wits[i]
+		sacc := *src.SignedAccumulator
+		return &revocation.Witness{U: new(big.Int).Set(src.U), E: new(big.Int).Set(src.E), SignedAccumulator: &sacc, Updated: src.Updated}
+	}
 	freshWitness := func() *revocation.Witness {
 		src := wits[s.WitAt]
 		sacc := *src.SignedAccumulator
@@ -401,6 +409,13 @@ func execC10Bubble(r *kernel.Run, s C10Spec) {
 			if derr != nil {
 				return
 			}
+			// the update object has been used before (its product of events is cached) ...
+			wa := freshWitnessAt(int(base.Events[0].Index) - 1)
+			if wa != nil {
+				if err := wa.Update(pk, base); err != nil {
+					panic(fmt.Sprintf("honest update before prepend failed: %v", err))
+				}
+			}
 			n0, first0 := len(base.Events), base.Events[0].Index
 			var perr error
 			r.Eval(1)
@@ -411,6 +426,12 @@ func execC10Bubble(r *kernel.Run, s C10Spec) {
 			if perr != nil {
 				if len(base.Events) != n0 || base.Events[0].Index != first0 {
 					r.Violate("C10:state-changed-on-rejection", map[string]any{"fault": id, "prepend": true}, "%s: update changed by a failed Prepend", id)
+				}
+				// ... and is used again after the rejected Prepend: it must serve a second witness exactly as it served the first
+				if wb := freshWitnessAt(int(first0) - 1); wb != nil {
+					if err := wb.Update(pk, base); err != nil {
+						r.Violate("C10:state-changed-on-rejection", map[string]any{"fault": id, "prepend": true, "later_use": true}, "%s: after a rejected Prepend the update object no longer updates a witness it updated before: %v", id, err)
+					}
 				}
 				r.Probe("prepend-rejected")
 				return
